@@ -53,6 +53,13 @@ system_clock::time_point system_clock::now() noexcept { return time_point(durati
 steady_clock::time_point steady_clock::now() noexcept { return time_point(duration(vk_clock())); }
 }}}
 #endif
+#include <exception>
+#include <boost/assert/source_location.hpp>
+// -fno-exceptions build: Boost calls these instead of throwing; reaching one is reported like an abort
+namespace boost {
+void throw_exception(std::exception const& e) { fprintf(stderr, "boost::throw_exception: %s\n", e.what()); fflush(stdout); abort(); }
+void throw_exception(std::exception const& e, boost::source_location const&) { fprintf(stderr, "boost::throw_exception: %s\n", e.what()); fflush(stdout); abort(); }
+}
 #include <dlfcn.h>
 int main(int argc, char** argv) {
   setvbuf(stdout, nullptr, _IOFBF, 1 << 16);
